@@ -275,7 +275,7 @@ def classes():
 
 # --------------------------------------------------------------------------------------
 # ground-truth events, taken at the market's own methods (instance wrapping, no source hooks):
-#  4 round started   [4, market, running]
+#  4 round started   [4, market, running, session id]
 #  6 truth           [6, 1, order fields..., tag, mp_before, mp_at_0]   accepted order (tag = index of the submitted object)
 #                    [6, 2, cancel_time, order fields...]               accepted cancel
 #                    [6, 3, exec fields...]                             fill
@@ -305,7 +305,7 @@ def _instrument(m, c):
         return log
 
     def execution():
-        c.ev.append([4, m.market_id, bool(m.is_running)])
+        c.ev.append([4, m.market_id, bool(m.is_running), c.sim.current_session.session_id if c.sim.current_session is not None else -1])
         logs = exec0()
         for l in logs:
             c.ev.append([6, 3, l.market_id, l.time, l.buy_agent_id, l.sell_agent_id, l.buy_order_id, l.sell_order_id, fr(l.price), l.volume])
